@@ -39,6 +39,11 @@ type C15Case struct {
 	Pool       int       `json:"pool"`
 	Adversary  string    `json:"adversary"` // "" | silence | garbage | truncated | hugelen | replay-hello | replay-join
 	Perms      []C15Perm `json:"perms"`
+	// SetAcceptorB: values given one after the other to Acceptor.SetCookie of b's running acceptors
+	// before anybody connects ("" = back to the cookie of the node); SetCookieA: a's node cookie is
+	// changed with Network.SetCookie before it dials
+	SetAcceptorB []string `json:"set_acceptor_b,omitempty"`
+	SetCookieA   string   `json:"set_cookie_a,omitempty"`
 	// TLS: b@h2 has a second acceptor that speaks TLS (port 15001); c@h3 reaches b through it, and
 	// the adversary talks to it as a TLS client (it knows no cookie but can of course do TLS)
 	TLS bool `json:"tls,omitempty"`
@@ -76,6 +81,14 @@ func (c15) Generate(r *simkit.Rand, tier string) any {
 	if r.Chance(0.4) {
 		c.RouteA = simkit.Pick(r, "alpha", "beta", "gamma")
 	}
+	if r.Chance(0.25) {
+		for i, n := 0, r.Range(1, 2); i < n; i++ {
+			c.SetAcceptorB = append(c.SetAcceptorB, simkit.Pick(r, "alpha", "beta", "gamma", ""))
+		}
+	}
+	if r.Chance(0.15) {
+		c.SetCookieA = simkit.Pick(r, "alpha", "beta", "gamma")
+	}
 	c.MaxSizeA = simkit.Pick(r, 0, 0, 100000)
 	c.MaxSizeB = simkit.Pick(r, 0, 0, 50000)
 	c.NoSpawnB = r.Chance(0.2)
@@ -104,6 +117,16 @@ func (c15) Shrink(cc any) []any {
 	if c.Adversary != "" {
 		n := cloneJSON(c)
 		n.Adversary = ""
+		out = append(out, n)
+	}
+	if len(c.SetAcceptorB) > 0 {
+		n := cloneJSON(c)
+		n.SetAcceptorB = n.SetAcceptorB[:len(n.SetAcceptorB)-1]
+		out = append(out, n)
+	}
+	if c.SetCookieA != "" {
+		n := cloneJSON(c)
+		n.SetCookieA = ""
 		out = append(out, n)
 	}
 	return out
@@ -217,6 +240,11 @@ func (c15) Run(e *simkit.Env, cc any) {
 	if c.AcceptorB != "" {
 		effB = c.AcceptorB
 	}
+	for _, v := range c.SetAcceptorB {
+		if effB = v; v == "" {
+			effB = c.CookieB // gen.AcceptorOptions.Cookie: "leave it empty in case of using the node's cookie"
+		}
+	}
 	cn := simkit.StartNetNode(e, sn, simkit.NetNodeOptions{Name: "c@h3", Cookie: effB, PoolSize: 1})
 	if a == nil || b == nil || cn == nil {
 		return
@@ -226,6 +254,23 @@ func (c15) Run(e *simkit.Env, cc any) {
 		simkit.StopNode(e, b, false, 0)
 		simkit.StopNode(e, cn, false, 0)
 	}()
+	if len(c.SetAcceptorB) > 0 {
+		acs, err := b.Network().Acceptors()
+		if err != nil || len(acs) == 0 {
+			e.Infra(fmt.Sprintf("acceptors of b: %v %d", err, len(acs)))
+			return
+		}
+		for _, v := range c.SetAcceptorB {
+			for _, ac := range acs {
+				ac.SetCookie(v)
+			}
+		}
+		e.Probe("acceptor-cookie-changed-at-run-time")
+	}
+	if c.SetCookieA != "" {
+		a.Network().SetCookie(c.SetCookieA)
+		e.Probe("node-cookie-changed-at-run-time")
+	}
 	if c.TLS {
 		// c reaches b through the TLS acceptor
 		if err := cn.Network().AddRoute("b@h2", gen.NetworkRoute{Route: gen.Route{Host: "h2", Port: 15001, TLS: true}, InsecureSkipVerify: true}, 100); err != nil {
@@ -258,6 +303,9 @@ func (c15) Run(e *simkit.Env, cc any) {
 
 	// ---- (a) cookie and agreement ----
 	effA := c.CookieA
+	if c.SetCookieA != "" {
+		effA = c.SetCookieA
+	}
 	if c.RouteA != "" {
 		effA = c.RouteA
 	}
